@@ -168,6 +168,24 @@ func (propC02) Draw(rt *rapid.T, w *WorldDesc, mode string) *Plan {
 				raw.Target = replaceURLValue(rpc, raw.Target, req, f, bad)
 				op.Notes = append(op.Notes, "bad="+f)
 			}
+		case 3: // another decimal spelling of the same integer (leading zeros): still that value
+			names := append(append([]string{}, rpc.PathVars...), queryFields(rpc)...)
+			f := names[rapid.IntRange(0, len(names)-1).Draw(rt, l+".padfield")]
+			fd := req.ProtoReflect().Descriptor().Fields().ByName(protoreflect.Name(f))
+			if fd != nil && !fd.IsList() && req.ProtoReflect().Has(fd) {
+				switch fd.Kind() {
+				case protoreflect.Int32Kind, protoreflect.Sint32Kind, protoreflect.Sfixed32Kind, protoreflect.Int64Kind, protoreflect.Sint64Kind, protoreflect.Sfixed64Kind,
+					protoreflect.Uint32Kind, protoreflect.Fixed32Kind, protoreflect.Uint64Kind, protoreflect.Fixed64Kind:
+					v := ScalarString(fd, req.ProtoReflect().Get(fd))
+					sign := ""
+					if strings.HasPrefix(v, "-") {
+						sign, v = "-", v[1:]
+					}
+					pad := strings.Repeat("0", rapid.SampledFrom([]int{1, 2, 12, 24}).Draw(rt, l+".pad"))
+					raw.Target = replaceURLValue(rpc, raw.Target, req, f, sign+pad+v)
+					op.Notes = append(op.Notes, "padded="+f)
+				}
+			}
 		case 2: // leave out a required query parameter
 			for _, q := range rpc.Query {
 				if q.Required {
